@@ -330,6 +330,7 @@ func (s *Store) Instantiate(
 	}
 
 	// Now that the instantiation is complete without error, add it.
+	verifYield("instantiate:before-register", m)
 	if err = s.registerModule(m); err != nil {
 		_ = m.Close(ctx)
 		return nil, err
